@@ -32,7 +32,7 @@ func draw(t *rapid.T) *pbt.Case {
 		sg = gen.Hostile()
 	}
 	c.SetStr("alphabet", alpha)
-	g := gen.Default(sg).Boost(3, safeCarriers...).Boost(2, gen.BarrierKinds...).Boost(2, "secondary", "combine")
+	g := gen.Default(sg).Boost(3, safeCarriers...).Boost(2, "sentinel").Boost(2, gen.BarrierKinds...).Boost(2, "secondary", "combine")
 	// Construct the feature: safe strings behind a barrier or in a
 	// secondary error: a hidden sub-tree with boosted safe carriers.
 	hidden := g.Draw(t, rapid.IntRange(1, 5).Draw(t, "hiddenbudget"))
@@ -99,6 +99,19 @@ func check(c *pbt.Case, r *pbt.R) {
 				}
 			}
 		}
+		// The fixed messages of the standard sentinels the library prints
+		// as safe (context.Canceled, os.ErrNotExist ...) are retained as
+		// well, wherever the sentinel sits (except inside a Mark
+		// reference, of which only the mark is kept).
+		for _, txt := range safeSentinelTexts(c.Spec, false) {
+			if !strings.Contains(out, txt) {
+				where := "local"
+				if i > 0 {
+					where = "after transfer"
+				}
+				r.Failf("the message of a safe standard sentinel is missing from the report and the safe details ("+where+")", "%q (hop %d)\nspec %s", txt, i, c.Spec)
+			}
+		}
 		for tk := range taint.Safe {
 			if !have[tk] {
 				where := "local"
@@ -141,6 +154,25 @@ func check(c *pbt.Case, r *pbt.R) {
 	for k := range c.Spec.Kinds() {
 		r.Count("kinds", k)
 	}
+}
+
+var safeSentinels = map[string]bool{"ctx-canceled": true, "ctx-deadline": true, "os-notexist": true, "os-exist": true, "os-permission": true, "os-closed": true, "os-invalid": true}
+
+// safeSentinelTexts lists the messages of the safe standard sentinels
+// in the tree that the report must show: those that are the leaf of a
+// chain (the library prints a sentinel as safe in leaf position).
+func safeSentinelTexts(s *gen.Spec, inMark bool) []string {
+	var out []string
+	if s.K == "sentinel" && safeSentinels[s.S[0]] && !inMark {
+		out = append(out, gen.Sentinels[s.S[0]].Error())
+	}
+	if s.C != nil {
+		out = append(out, safeSentinelTexts(s.C, inMark)...)
+	}
+	for _, x := range s.X {
+		out = append(out, safeSentinelTexts(x, inMark || s.K == "mark")...)
+	}
+	return out
 }
 
 func kindOf(s *gen.Spec, tk string) string {
